@@ -1,5 +1,6 @@
 import ast
 import copy
+import dis
 import importlib
 import inspect
 import tokenize
@@ -743,17 +744,25 @@ def _code_names_and_constants(code) -> Tuple[List[str], List[str]]:
 
 
 def _code_instructions(code) -> List[Any]:
-    """The instructions of a code object and of the code objects nested in it: byte code along
-    with the constants and names it indexes, in order."""
-    result: List[Any] = [
-        code.co_code,
-        code.co_names,
-        code.co_freevars,
-        [repr(c) for c in code.co_consts if not hasattr(c, "co_code")],
-    ]
-    for c in code.co_consts:
-        if hasattr(c, "co_code"):
-            result.append(_code_instructions(c))
+    """The instructions of a code object and of the code objects nested in it, in order, with
+    the names and constants they refer to. How a call is set up is left out: the compiler
+    picks another instruction sequence for `mod.f(x)` when it knows that `mod` was imported,
+    which it does for the callable in its module but not for the text we compile here."""
+    setup_only = {"RESUME", "PUSH_NULL", "PRECALL", "CACHE", "NOP", "EXTENDED_ARG"}
+    setup_only |= {"COPY_FREE_VARS", "MAKE_CELL"}
+    same_thing = {"LOAD_METHOD": "LOAD_ATTR", "CALL_METHOD": "CALL", "CALL_FUNCTION": "CALL"}
+    jumps = set(dis.hasjrel) | set(dis.hasjabs)
+    result: List[Any] = []
+    for ins in dis.get_instructions(code):
+        if ins.opname in setup_only:
+            continue
+        name = same_thing.get(ins.opname, ins.opname)
+        if ins.opcode in jumps:
+            result.append((name,))
+        elif hasattr(ins.argval, "co_code"):
+            result.append((name, _code_instructions(ins.argval)))
+        else:
+            result.append((name, repr(ins.argval)))
     return result
 
 
